@@ -364,7 +364,8 @@ def check_next(e, kind, it, outs, ip, ti, oi, n, ok):
             got = absint.tm(w) if isinstance(w, W) else None
             if got is None:
                 return UNDECIDED, "word %d has no term" % j
-            if got != want:
+            if got != want and not (j < k and got == ("c", 0)):
+                # (a wrapped word is tested to be 0 on this path: storing the constant 0 is storing the step)
                 return REFUTED, "on the path where %d word(s) wrap, word %d becomes %s, expected %s" % (k, j, got, want)
         seen.add((k, fl.val))
     want_paths = {(k, 1) for k in range(T)} | {(T, 0)}
